@@ -23,7 +23,7 @@ go test -vet=off -count=1 ./markdown >/dev/null 2>&1; a=$?
 go test -vet=off -count=1 -run '^(TestGenerate.*|TestNode_.*|TestStack_.*)$' . >/dev/null 2>&1; b=$?
 echo "   pinned suite: exit $a/$b"
 if [ -n "$demo" ]; then go test -vet=off -count=1 -run 'TestDemo' . >/tmp/seed_demo_patched.log 2>&1; echo "   demo with the change: exit $?"; fi
-cd /verif
+cd "${VERIF_DIR:-/verif}"
 if [ $# -gt 0 ]; then
   if [ -n "$ON_REPO" ]; then
     echo "== checks on /repo with the change applied"
